@@ -6,6 +6,7 @@ Property theorems only; helper lemmas live in `RtcModel/Lemmas/Sctp{Multi,Open}.
 import RtcModel.Lemmas.SctpMulti
 import RtcModel.Lemmas.SctpOpen
 import RtcModel.Lemmas.SctpPr
+import RtcModel.Lemmas.SctpDcepRun
 
 namespace RtcModel.Theorems.C12
 open RtcModel.Sctp RtcModel.Generated
@@ -215,6 +216,46 @@ theorem chantype_roundtrip (sid : UInt16) (ordered : Bool) (mr ml : Option UInt1
 theorem chantype_both_set_witness :
     (chanOfOpen 1 (openOf true (some 3) (some 100) [] [])).maxLifetime = none := by decide
 
+/-- **dcep_open_any_size** (round 2; was the unrecorded defect W1): the DCEP OPEN `send_dcep_open`
+builds for a channel — label and protocol of *any* length up to the protocol's 65 535 bytes, so
+possibly many DATA chunks after `send_data_raw`'s fragmentation — processed in order by the peer's
+`process_data_payload` creates exactly one channel there, with the creator's ordering, reliability
+mode and parameter, label and protocol, announces Open on it, hands it to the application and
+answers with a DCEP ACK. Composition of fragmentation, per-stream DCEP reassembly, the codec round
+trip and the channel-type mapping. -/
+theorem dcep_open_any_size (cs : List TxChan) (sid : UInt16) (tc : TxChan) (hf : findTx cs sid = some tc)
+    (hmp : 0 < tc.maxPayload) (ordered : Bool) (mr ml : Option UInt16) (label proto : Bytes)
+    (hboth : ¬ (mr.isSome ∧ ml.isSome)) (hl : label.length < 65536) (hp : proto.length < 65536)
+    (hul : utf8Valid label = true) (hup : utf8Valid proto = true)
+    (pl : Pl) (hnew : pl.chans.any (fun c => c.id == sid) = false) (t : UInt32) :
+    let pl' := plRun procPayload pl (assignTsn t (sendDataRaw cs sid (UInt32.ofNat dcPpidDcep) (openOf ordered mr ml label proto).marshal).2)
+    (∃ c, pl'.chans = pl.chans ++ [c] ∧ c.id = sid ∧ c.ordered = ordered ∧ c.maxRetransmits = mr ∧ c.maxLifetime = ml ∧
+      c.label = label ∧ c.protocol = proto ∧ c.state = 1 ∧ c.events = [ChanEv.open_]) ∧
+    pl'.acts = pl.acts ++ [Act.newChannel sid, Act.dcepAck sid] := by
+  have hne : (openOf ordered mr ml label proto).marshal ≠ [] := by simp [DcepOpen.marshal]
+  obtain ⟨x, hx⟩ := dcepMsgRun cs sid tc hf hmp _ hne pl t
+  have hrt := dcep_unmarshal_marshal (openOf ordered mr ml label proto) (by simpa [openOf] using hl)
+    (by simpa [openOf] using hp) (by simpa [openOf] using hul) (by simpa [openOf] using hup)
+  have hcore : (handleDcep pl sid (openOf ordered mr ml label proto).marshal).1 =
+      { pl with chans := pl.chans ++ [chanOfOpen sid (openOf ordered mr ml label proto)],
+                acts := pl.acts ++ [Act.newChannel sid, Act.dcepAck sid] } := by
+    have hhead : ∃ rest, (openOf ordered mr ml label proto).marshal = 0x03 :: rest := ⟨_, rfl⟩
+    obtain ⟨rest, hr⟩ := hhead
+    simp only [handleDcep, dcepCore]
+    rw [hr] at hrt ⊢
+    simp only [beq_self_eq_true, if_true, hrt, hnew, Bool.false_eq_true, if_false]
+  obtain ⟨h1, h2, h3, h4, h5, h6, h7⟩ := chantype_roundtrip sid ordered mr ml label proto hboth
+  simp only []
+  rw [hx, hcore]
+  exact ⟨⟨_, rfl, h6, h1, h2, h3, h4, h5, by simp [chanOfOpen], h7⟩, rfl⟩
+
+/-- non-vacuity: a 40-byte label over a 16-byte fragment size (four DATA chunks) creates the channel -/
+example :
+    let cs : List TxChan := [{ id := 2, ordered := true, maxPayload := 16 }]
+    let os := (sendDataRaw cs 2 50 (openOf false (some 3) none (List.replicate 40 0x4C) [0x70]).marshal).2
+    os.length = 4 ∧ (plRun procPayload {} (assignTsn 7 os)).chans.map (fun c => (c.id, c.ordered, c.maxRetransmits, c.label.length, c.events))
+      = [(2, false, some 3, 40, [ChanEv.open_])] := by decide
+
 /-! ### Open / Close -/
 
 /-- **open_once_before_first**: if every channel's event list is well-shaped (nothing announced
@@ -238,17 +279,42 @@ example : Shape { id := 1, ordered := true } ∧
       x.events = [ChanEv.open_, ChanEv.msg [5]]) := by
   refine ⟨Or.inl ⟨rfl, rfl⟩, by decide⟩
 
-/-- **close_at_most_once**: the teardown guard announces `Close` only on channels that were not
-Closed, leaves every channel Closed, and running it again announces nothing more. -/
-theorem close_at_most_once (e : Ep) (hall : ∀ x ∈ e.rx.pl.chans, CloseInv x) :
+/-- **close_at_most_once** (round 2: all three emitters, all schedules): `Close` is announced by
+`close_data_channel` (two atomic steps around the RE-CONFIG it sends), by the association's cleanup
+guard and by `PeerConnection::close`. For *every* interleaving of any number of these steps on a
+channel — the application closing twice, closing while the association is torn down, the guard
+running between the two halves of `close_data_channel`, … — the channel has announced `Close` at
+most once, and only together with entering state Closed. (Before fix 66eace2 `close_data_channel`
+stored Closed and emitted unconditionally: two calls gave `Open, Close, Close`.) -/
+theorem close_at_most_once (c : Chan) (steps : List CloseStep) (h : CloseInv c) :
+    CloseInv (steps.foldl closeStep c) ∧ closes (steps.foldl closeStep c) ≤ 1 := by
+  have key : ∀ (steps : List CloseStep) (c : Chan), CloseInv c → CloseInv (steps.foldl closeStep c) := by
+    intro steps
+    induction steps with
+    | nil => intro c h; exact h
+    | cons s rest ih => intro c h; exact ih _ (closeInv_step c s h)
+  exact ⟨key steps c h, (key steps c h).1⟩
+
+/-- the model's whole-endpoint operations are such interleavings: the teardown guard is a `guard`
+step on every channel (and idempotent), `close_data_channel` is `cdcBegin; cdcEnd` on the channel
+it names -/
+theorem close_ops_are_steps (e : Ep) (hall : ∀ x ∈ e.rx.pl.chans, CloseInv x) :
     (∀ x ∈ (cleanup e).rx.pl.chans, CloseInv x ∧ x.state = 3) ∧
-    (cleanup (cleanup e)).rx.pl.chans = (cleanup e).rx.pl.chans := by
-  refine ⟨closeInv_cleanup e hall, ?_⟩
-  simp only [cleanup, List.map_map]
-  apply List.map_congr_left
-  intro c _
-  by_cases hs : c.state = 3
-  · simp [hs]
-  · simp [hs, Chan.emit]
+    (cleanup (cleanup e)).rx.pl.chans = (cleanup e).rx.pl.chans ∧
+    (∀ dc, closeStep (closeStep dc .cdcBegin) .cdcEnd = if dc.state == 3 then dc else ({ dc with state := 3 }.emit .close)) := by
+  refine ⟨closeInv_cleanup e hall, ?_, ?_⟩
+  · simp only [cleanup, List.map_map]
+    apply List.map_congr_left
+    intro c _
+    by_cases hs : c.state = 3
+    · simp [swapClosed, hs]
+    · simp [swapClosed, hs, Chan.emit]
+  · intro dc
+    by_cases hs : dc.state = 3
+    · simp [closeStep, swapClosed, hs]
+    · simp [closeStep, swapClosed, hs]
+
+example : closes (([CloseStep.cdcBegin, .cdcBegin, .guard, .cdcEnd, .pcClose, .cdcEnd].foldl closeStep
+    { id := 1, ordered := true, state := 1, events := [.open_] })) = 1 := by decide
 
 end RtcModel.Theorems.C12
